@@ -29,6 +29,8 @@ enum Pol {
     Fractional,
     /// exponential from 1.25 s, capped at 3.5 s: whole seconds plus a sub-second part
     Seconds,
+    /// Duration::MAX: after a connection failure the call waits (for ever) in its back-off
+    Forever,
 }
 
 impl Pol {
@@ -43,6 +45,7 @@ impl Pol {
             Pol::SubMs => ReconnectPolicy::fixed(Duration::from_micros(900)),
             Pol::Fractional => ReconnectPolicy::fixed(Duration::from_micros(2750)),
             Pol::Seconds => ReconnectPolicy::exponential(Duration::from_millis(1250), Duration::from_millis(3500)),
+            Pol::Forever => ReconnectPolicy::fixed(Duration::MAX),
         }
     }
     /// upper bound (ms) of the configured delay for attempt index a
@@ -64,6 +67,7 @@ impl Pol {
             Pol::SubMs => 0.9,
             Pol::Fractional => 2.75,
             Pol::Seconds => exp(1250.0, 2.0, 3500.0),
+            Pol::Forever => f64::MAX,
         }
     }
 }
@@ -190,7 +194,7 @@ fn run_one(cfg: &Cfg, prelude: &[u8], script: &[u8], trace: bool) -> (Vec<(Strin
     let f = svc.call(req.clone());
     w.set_arrived(0, req, wrap(f));
     let mut sleeping_states = vec![];
-    for _ in 0..200 {
+    for _ in 0..if cfg.pol == Pol::Forever { 6 } else { 200 } {
         if w.needs_poll(0) {
             w.poll_caller(0);
         }
@@ -210,6 +214,22 @@ fn run_one(cfg: &Cfg, prelude: &[u8], script: &[u8], trace: bool) -> (Vec<(Strin
             log.push(format!("inner call {} at {}ms -> {:?}", c.k, c.start_ms, c.status));
         }
         log.push(format!("states at call starts {:?}; while sleeping {:?}; final {:?}; result {:?}", at_call.lock().unwrap(), sleeping_states, state.state(), w.callers[0].phase));
+    }
+    if w.callers[0].is_live() && cfg.pol == Pol::Forever {
+        // an unbounded back-off: the call is expected to sit in it, quietly, with the state
+        // lowered, after exactly one inner call that met a connection failure (also when
+        // retry_on_reconnect is off: the layer still sits out the delay before it gives up)
+        let ok_wait = calls.len() == 1 && matches!(&calls[0].status, CallStatus::Err(e) if is_reconnectable(cfg, e.kind)) && cfg.max != Some(0);
+        if !ok_wait {
+            viols.push(("never_resolves".into(), format!("the call is still pending although it is not in an unbounded back-off (inner calls: {:?})", calls.iter().map(|c| format!("{:?}", c.status)).collect::<Vec<_>>())));
+        }
+        for (t, s) in &sleeping_states {
+            if *s == ConnectionState::Connected {
+                viols.push(("connected_while_reconnecting".into(), format!("state Connected at {t}ms while the call sits in its back-off")));
+            }
+        }
+        drop(g);
+        return (viols, "1:waiting_in_unbounded_backoff".into(), log);
     }
     if w.callers[0].is_live() {
         viols.push(("never_resolves".into(), "the call did not resolve within 200 events".into()));
@@ -302,7 +322,7 @@ fn grid(tier: Tier) -> Vec<Cfg> {
         if tier == Tier::Quick && max == Some(4) {
             continue;
         }
-        for pol in [Pol::None, Pol::Zero, Pol::Fixed, Pol::Exponential, Pol::Jittered, Pol::Custom, Pol::SubMs, Pol::Fractional, Pol::Seconds] {
+        for pol in [Pol::None, Pol::Zero, Pol::Fixed, Pol::Exponential, Pol::Jittered, Pol::Custom, Pol::SubMs, Pol::Fractional, Pol::Seconds, Pol::Forever] {
             for retry_on_reconnect in [true, false] {
                 for predicate in [false, true] {
                     if tier == Tier::Quick && max == Some(3) && pol == Pol::Jittered {
@@ -387,8 +407,9 @@ fn main() {
     let preludes: Vec<Vec<u8>> = vec![vec![], vec![0], vec![1, 0], vec![2], vec![1, 1, 1, 1, 1]];
     for cfg in &cfgs {
         for pre in &preludes {
-            if pre.len() == 5 && cfg.max.is_none() && cfg.retry_on_reconnect && cfg.pol != Pol::None {
-                // unlimited attempts: the scripted errors are followed by the default success
+            if cfg.pol == Pol::Forever && pre.iter().any(|o| *o != 0) {
+                // an earlier request that meets a connection error would itself wait for ever
+                continue;
             }
             for s in scripts(cfg) {
                 let (viols, outcome, _) = run_one(cfg, pre, &s, false);
